@@ -70,61 +70,110 @@ def ieval(e, env):
     raise AnalysisBroken('expression not evaluable: %s' % e0.text()[:80])
 
 
+def _run_reader(db, fn, env, data):
+    """interpret a varint reader on the byte stream `data`: (return value, environment, bytes consumed, in.error_code)"""
+    from .. import minieval as M
+    pos = [0]
+
+    def hook(callee, args, node):
+        if callee == 'gdstk::oasis_read':
+            dst, size, count = args[0], args[1], args[2]
+            if size != 1 or count != 1 or not isinstance(dst, M.Ref):
+                raise AnalysisBroken('%s: oasis_read call not understood' % fn.qn)
+            if pos[0] >= len(data):
+                return (1,)         # input exhausted: an error code other than NoError
+            dst.env[dst.name] = data[pos[0]]
+            pos[0] += 1
+            return (0,)
+        if callee in ('fputs', 'fprintf'):
+            return (0,)
+        return None
+    mi = M.Mini(db, hook=hook, member_store=True, members={'in.error_code': 0}, c_ints=True, globals={'error_logger': 0})
+    env = dict(env)
+    env['error_logger'] = 0
+    try:
+        mi.run(fn.body, env)
+        ret = None
+    except M.Return as rr:
+        ret = rr.v
+    return ret, env, pos[0], mi.members.get('in.error_code')
+
+
 def check_guards(ctx, db):
+    """Both varint decoders, interpreted (sa/minieval, C integer widths) on a family of byte streams that reaches every
+    decoder state: for every depth d (number of continuation bytes read so far, up to two groups past bit 63), both
+    extreme fillings of the earlier groups and every value 0..255 of the byte read at that depth, followed by the
+    shortest tails. The format gives the value V of each stream as an unbounded integer. Required: V beyond the
+    limit (63 magnitude bits, 64 unsigned) => ErrorCode::Overflow is stored, never a wrapped value returned as success;
+    V within the limit and no continuation byte above bit 56 => exactly V, no error flag; no shift by its width or more
+    is ever executed. Nothing about the statement form of the decoder (guard as if / else-if, loop on the byte or on
+    a flag, early return or single exit) enters."""
+    from .. import minieval as M
+    full = ctx.tier == 'thorough'
+    edge_bytes = {0x00, 0x01, 0x02, 0x3F, 0x40, 0x7F, 0x80, 0x81, 0x82, 0xBF, 0xC0, 0xFF}
     for qn, limit, skips in (('gdstk::oasis_read_unsigned_integer', 64, [0]), ('gdstk::oasis_read_int_internal', 63, [1, 2, 3, 4])):
         f = db.fn(qn)
         ctx.touch(f)
-        nb = next((v for v in f.walk() if v.k == 'VarDecl' and v.n == 'num_bits'), None)
-        loop = next((l for l in f.walk() if l.k == 'WhileStmt'), None)
-        guard = next((i for i in (loop.child('body').c if loop is not None else []) if i is not None and i.k == 'IfStmt' and 'num_bits' in i.child('cond').text()), None)
-        shift = next((x for x in (loop.walk() if loop is not None else []) if x.k == 'BinaryOperator' and x.op == '<<' and 'num_bits' in x.child('rhs').text()), None)
-        step = next((x for x in (loop.walk() if loop is not None else []) if x.k == 'CompoundAssignOperator' and x.op == '+=' and norm(x.child('lhs').text()) == 'num_bits'), None)
-        if None in (nb, loop, guard, shift, step):
-            raise AnalysisBroken('%s: decoder loop shape not recognised' % qn)
-        gcond = guard.child('cond')
-        while gcond.k == 'BinaryOperator' and gcond.op in ('&&', '||'):
-            gcond = gcond.child('lhs')
-        ok = f.cfg.node_dominates(gcond, shift) and guard.pos < shift.pos
-        ctx.check(ok, 'R-GUARD', '%s/guard-dominates-shift' % qn.split('::')[-1], guard.loc(), 'the overflow guard dominates the `<< num_bits`')
-        st = [x for x in guard.child('then').walk() if is_assign(x) and norm(x.child('rhs').text()).endswith('ErrorCode::Overflow')]
-        ret = any(r.k == 'ReturnStmt' for r in guard.child('then').walk())
-        ctx.check(bool(st) and ret, 'R-GUARD', '%s/flags-overflow' % qn.split('::')[-1], guard.loc(), 'the firing branch stores ErrorCode::Overflow and leaves (flag instead of wrap)')
-        contw = norm(loop.child('cond').text())
-        ctx.check(contw == '(byte & 128)', 'R-CONST', '%s/continuation-bit' % qn.split('::')[-1], loop.loc(), 'continuation is bit 0x80')
+        name = qn.split('::')[-1]
         for skip in skips:
-            env0 = {'skip_bits': skip}
-            n0 = ieval(nb.child('init'), env0)
-            inc = ieval(step.child('rhs'), env0)
-            reach = {n0}
-            work = [n0]
+            n0 = 7 - skip
             problems = []
-            states = 0
-            while work:
-                n = work.pop()
-                for byte in range(256):
-                    states += 1
-                    env = {'num_bits': n, 'byte': byte, 'skip_bits': skip}
-                    try:
-                        g = bool(ieval(guard.child('cond'), env))
-                    except OverflowError as ex:
-                        problems.append('guard itself shifts out of range at num_bits=%d (%s)' % (n, ex))
-                        g = True
-                    payload = byte & 0x7F
-                    overflow = n + payload.bit_length() > limit if payload else False
-                    if overflow and not g:
-                        problems.append('payload 0x%02x at num_bits=%d exceeds %d bits but the guard is silent (wraps)' % (payload, n, limit))
-                    if byte < 0x80 and not overflow and g:
-                        problems.append('terminal byte 0x%02x at num_bits=%d fits in %d bits but is flagged as overflow' % (byte, n, limit))
-                    if not g:
-                        if n >= 64:
-                            problems.append('shift by num_bits=%d >= 64 is executed' % n)
-                        if byte >= 0x80 and n + inc not in reach and n + inc < 200:
-                            reach.add(n + inc)
-                            work.append(n + inc)
-            ctx.explored['valuations'] += states
-            key = '%s/guard-exact|skip=%d' % (qn.split('::')[-1], skip)
-            ctx.check(not problems, 'R-GUARD', key, guard.loc(), 'over %d reachable (num_bits, byte) states (num_bits in %s): no silent wrap, no false overflow on a terminal byte, shift count < 64' % (states, sorted(reach)),
+            wraps = []
+            runs = 0
+            depth_max = (63 - n0) // 7 + 3
+            for d in range(0, depth_max + 1):
+                for fill in ((0x00, 0x7F) if d > 0 else (0x00,)):
+                    for b in range(256):
+                        tails = ([[]] if b < 0x80 else [[0x00], [0x01], [0x80, 0x01]])
+                        if not full:
+                            # quick tier: every (depth, byte) state once, the other filling and tails on the group boundaries
+                            if fill and b not in edge_bytes:
+                                continue
+                            if b >= 0x80 and b not in edge_bytes:
+                                tails = [[0x01]]
+                        if d == 0:
+                            head = []
+                        else:
+                            head = [0x80 | (fill & 0x7F)] + [0x80 | fill] * (d - 1)
+                        for tail in tails:
+                            stream = head + [b] + tail
+                            runs += 1
+                            # the format's value
+                            V = (stream[0] & 0x7F) >> skip
+                            shift = n0
+                            high = False           # a continuation byte read when num_bits > 56
+                            for i, x in enumerate(stream[1:], 1):
+                                if shift > 56 and x >= 0x80:
+                                    high = True
+                                V |= (x & 0x7F) << shift
+                                shift += 7
+                            bits = stream[0] & ((1 << skip) - 1)
+                            try:
+                                if skip:
+                                    ret, env, used, err = _run_reader(db, f, {'in': ('opaque', 'in'), 'skip_bits': skip, 'result': 0}, stream + [0x55])
+                                    val = env.get('result')
+                                else:
+                                    ret, env, used, err = _run_reader(db, f, {'in': ('opaque', 'in')}, stream + [0x55])
+                                    val = ret
+                            except M.UndefinedShift as ex:
+                                if len(problems) < 3:
+                                    problems.append('stream %s: %s' % (bytes(stream).hex(), ex))
+                                continue
+                            if V >> limit:
+                                if not err:
+                                    wraps.append(bytes(stream).hex())
+                                    if len(problems) < 3:
+                                        problems.append('stream %s encodes a value of %d bits but is decoded as %s without ErrorCode::Overflow (wraps)' % (bytes(stream).hex(), V.bit_length(), val))
+                            elif not high:
+                                if err and len(problems) < 3:
+                                    problems.append('stream %s encodes %#x, which fits in %d bits, but is flagged as overflow' % (bytes(stream).hex(), V, limit))
+                                elif not err and (val != V or used != len(stream) or (skip and ret != bits)) and len(problems) < 3:
+                                    problems.append('stream %s decodes to %s (bits %s) after %d bytes, the format says %#x (bits %d) after %d' % (bytes(stream).hex(), val, ret, used, V, bits, len(stream)))
+            ctx.explored['valuations'] += runs
+            key = '%s/guard-exact|skip=%d' % (name, skip)
+            ctx.check(not problems, 'R-GUARD', key, f.loc(), 'interpreted on %d byte streams (every depth up to %d continuation bytes x both fillings x every byte value x shortest tails): values beyond %d bits are flagged with ErrorCode::Overflow, fitting values are decoded exactly and never flagged, no shift by the operand width or more' % (runs, depth_max, limit),
                       'overflow guard is wrong: %s' % '; '.join(problems[:3]))
+            ctx.require('R-GUARD streams interpreted (%s, skip %d)' % (name, skip), runs, 2000)
 
 
 _DBREF = {}
@@ -169,30 +218,7 @@ def check_packing(ctx, db):
         return got
 
     def run_reader(fn, env, data):
-        pos = [0]
-
-        def hook(callee, args, node):
-            if callee == 'gdstk::oasis_read':
-                dst, size, count = args[0], args[1], args[2]
-                if size != 1 or count != 1 or not isinstance(dst, M.Ref):
-                    raise AnalysisBroken('%s: oasis_read call not understood' % fn.qn)
-                if pos[0] >= len(data):
-                    return (1,)         # input exhausted: an error code other than NoError
-                dst.env[dst.name] = data[pos[0]]
-                pos[0] += 1
-                return (0,)
-            if callee in ('fputs', 'fprintf'):
-                return (0,)
-            return None
-        mi = M.Mini(db, hook=hook, member_store=True, members={'in.error_code': 0}, c_ints=True)
-        env = dict(env)
-        env['error_logger'] = 0
-        try:
-            mi.run(fn.body, env)
-            ret = None
-        except M.Return as rr:
-            ret = rr.v
-        return ret, env, pos[0], mi.members.get('in.error_code')
+        return _run_reader(db, fn, env, data)
 
     values = sorted({0, 1, 2, 5} | {(1 << k) + d for k in (3, 4, 5, 6, 7, 8, 13, 14, 20, 21, 27, 28, 34, 35, 41, 42, 48, 49, 55, 56, 57, 58, 59, 60, 61, 62) for d in (-1, 0, 1)} | {(1 << 63) - 1, 0x5555555555555555, 0x2AAAAAAAAAAAAAAA})
     bad = []
